@@ -260,7 +260,7 @@ def check(fx, rep, tier):
         for n, ps in F.calls(hir["value"]):
             if F.strip_generics(F.callee_def(n) or "") == "layout::StorageLayout::add":
                 adds.append((b, n, ps))
-    rep.floor("R05.1", len(adds), 2, "calls of StorageLayout::add")
+    rep.floor("R05.1", len(adds), 1, "calls of StorageLayout::add")
     builders = {b["def"] for b, _, _ in adds}
     rep.oblige(len(builders) == 1, "R05.1", "single-builder", "-", f"layout rows are added by {sorted(builders)}; exactly one layout-building function is expected")
     for b, n, ps in adds:
